@@ -30,7 +30,7 @@ theorem abs_arcs_symm (a : Abs) (weighted : Bool) (x y : Nat) (c : Int) (h : (x,
 
 def msH (s : Store) (weighted : Bool) (target : Option Nat) (cutoff2 : Option Int) (firstOnly withPaths : Bool)
     (out : List (Nat × List (Nat × SPInfo))) (src : Nat) : Outcome (List (Nat × List (Nat × SPInfo))) :=
-  ((s.singleSource weighted src target cutoff2 firstOnly withPaths).unwrap "multi_source: unwrap").bind fun r =>
+  ((s.singleSource weighted src target cutoff2 firstOnly withPaths)).bind fun r =>
     .ok (ainsert out src r)
 
 theorem msH_ok (s : Store) (weighted : Bool) (target : Option Nat) (cutoff2 : Option Int) (firstOnly withPaths : Bool)
@@ -69,7 +69,7 @@ theorem multiSource_inv (s : Store) (weighted : Bool) (sources : List Nat) (targ
 
 def apH (s : Store) (weighted : Bool) (cutoff2 : Option Int) (firstOnly withPaths : Bool)
     (out : List (Nat × List (Nat × SPInfo))) (i : Nat) : Outcome (List (Nat × List (Nat × SPInfo))) :=
-  ((s.runOne weighted i none none cutoff2 firstOnly withPaths).unwrap "all_pairs_iter: unwrap").bind fun r =>
+  ((s.runOne weighted i none none cutoff2 firstOnly withPaths)).bind fun r =>
     (Outcome.ofOption "all_pairs: get_node_by_index().unwrap()" (s.getNodeByIndex i)).bind fun src =>
       (s.spToNames r).bind fun named => .ok (ainsert out src.name named)
 
